@@ -59,9 +59,9 @@ def gen_scenarios(c, nref, lastwait, nspawn, nspawn_tok=0):
         scs.append(cases.sc_frozen_orphan(f"s{k:04d}", nspawn))
         # the job cannot be adopted (no pid file / empty pid file) and keeps running well into the second run
         k += 1
-        scs.append(cases.sc_long_orphan(f"s{k:04d}", "one", nspawn, wait=7.0))
+        scs.append(cases.sc_long_orphan(f"s{k:04d}", "one", nspawn, wait=6.5))
         k += 1
-        scs.append(cases.sc_long_orphan(f"s{k:04d}", "one", nspawn + 1, wait=7.0, sig="TERM"))
+        scs.append(cases.sc_long_orphan(f"s{k:04d}", "one", nspawn + 1, wait=6.5, sig="TERM"))
         # the job ends while the second run looks for its process; empty pid file + token + slow start
         k += 1
         scs.append(cases.sc_toctou(f"s{k:04d}"))
